@@ -126,7 +126,7 @@ class World:
             self.impl_targs = {}
             self.impl_gen, self.fn_impl = {}, {}
             for name in self.mod.index:
-                m = re.search(r"<impl at ([^:>]+):(\d+):(\d+): (\d+):(\d+)>::(.*)$", name)
+                m = re.search(r".*<impl at ([^:>]+):(\d+):(\d+): (\d+):(\d+)>::(.*)$", name)     # the LAST impl segment (impls nested in fn bodies)
                 if not m: continue
                 f, l1, c1, l2, c2, meth = m.groups()
                 key = (f, l1, c1, l2, c2)
